@@ -147,15 +147,8 @@ class Gen:
                 m["base"] = self.pick_reg(areg, mode)
             m["disp"] = rng.choice(DISPS[:10]) if style != "b" else 0
             return m
-        if mem == "tmem":
-            m["base"] = self.pick_reg(areg, mode)
-            idx = self.pick_reg(areg, mode)
-            while idx[1] == 4:
-                idx = self.pick_reg(areg, mode)
-            m["index"] = idx
-            m["shift"] = rng.below(4)
-            m["disp"] = rng.choice(DISPS[:8])
-            return m
+        if mem == "tmem" and style in ("rip", "abs", "a32", "a16", "isd"):
+            style = rng.choice(["b", "bd8", "bis", "bisd", "bbp", "bsp"])   # sibmem: base required, index optional
         if style == "b":
             m["base"] = self.pick_reg(areg, mode)
         elif style == "bd8":
@@ -486,11 +479,19 @@ class Gen:
         if any(o["rel"] for o in opers):
             variants.append(("short", list(base), OPT_SHORT, None))
             variants.append(("long", list(base), OPT_LONG, None))
-        # fully random combination
-        for _ in range(2):
+        # fully random combinations (operands, mask, options the form allows)
+        for _ in range(40 if self.deep else 2):
             ops = self.instantiate(form, mode, None)
             if ops:
-                variants.append(("random", ops, 0, ("k", rng.range(1, 7)) if form.get("kmask") and rng.chance(1, 2) else None))
+                o2 = 0
+                if form.get("zmask") and rng.chance(1, 4):
+                    o2 |= OPT_ZMASK
+                if form["prefix"] == "VEX" and rng.chance(1, 4):
+                    o2 |= OPT_VEX3
+                ex = ("k", rng.range(1, 7)) if form.get("kmask") and (o2 & OPT_ZMASK or rng.chance(1, 2)) else None
+                if o2 & OPT_ZMASK and ex is None:
+                    o2 &= ~OPT_ZMASK
+                variants.append(("random", ops, o2, ex))
         # budget: stratified - keep one of each variant class first, then fill randomly
         chosen = []
         if budget is None or len(variants) <= budget:
